@@ -47,6 +47,14 @@ pub fn first_code(ast: &Ast) -> Option<(Position, Position)> {
     }
 }
 
+/// Whether a Lua numeral denotes zero, however it is spelled (`0`, `0.0`, `0e5`, `0x0`)
+pub fn number_is_zero(text: &str) -> bool {
+    match text.strip_prefix("0x").or_else(|| text.strip_prefix("0X")) {
+        Some(hex) => !hex.is_empty() && hex.chars().all(|character| character == '0'),
+        None => text.parse::<f64>() == Ok(0.0),
+    }
+}
+
 pub fn is_vararg(expression: &ast::Expression) -> bool {
     if_chain::if_chain! {
         if let ast::Expression::Symbol(token) = expression;
